@@ -41,7 +41,7 @@ Record rawdispatch := {
 
 Record access := {
   ac_func : string; ac_recv : string; ac_field : string;
-  ac_write : bool; ac_locked : bool; ac_in_go : bool; ac_kind : string
+  ac_write : bool; ac_locked : bool; ac_in_go : bool; ac_in_loop : bool; ac_kind : string
 }.
 
 (* ---------- descriptor view: what fields.go computes per struct type ---------- *)
